@@ -51,7 +51,8 @@ def build_case(seed_cid, big=False):
     rng = random.Random(seed)
     vocab = rulegen.make_vocab(rng)
     nns = rng.choice([1, 2, 3])
-    nss = ["ns%d" % i for i in range(nns)]
+    # names that are prefixes of one another, in random order
+    nss = rng.sample(["ns", "ns1", "ns10", "n", "ns1x", "corp", "corp_eu", "a", "ab", "abc"], nns) if rng.random() < 0.5 else ["ns%d" % i for i in range(nns)]
     pool = {}
     for ns in nss:
         lst = []
